@@ -164,6 +164,8 @@ class Array:
                     raise ValueError(f"Inappropriate Dtype for Array: '{new_dtype}'.")
             if dtype.length is None:
                 raise ValueError(f"A fixed length format is needed for an Array, received '{new_dtype}'.")
+            if dtype.length == 0:
+                raise ValueError(f"A non-zero length format is needed for an Array, received '{new_dtype}'.")
             self._dtype = dtype
         if self._dtype.scale == 'auto':
             raise ValueError("A Dtype with an 'auto' scale factor can only be used when creating a new Array.")
